@@ -135,7 +135,14 @@ func init() {
 		if i.sh.opts.pin != nil {
 			return nil
 		}
-		g := i.nondetVar(strArg(args[0]), types.Typ[types.Bool]).(*Term)
+		// A ghost may be re-defined as the harness proceeds: each definition binds a fresh
+		// version, and known-finding predicates see the latest one (false when undefined).
+		name := strArg(args[0])
+		if i.ps.ghostVer == nil {
+			i.ps.ghostVer = map[string]int{}
+		}
+		i.ps.ghostVer[name]++
+		g := i.nondetVar(fmt.Sprintf("%s#%d", name, i.ps.ghostVer[name]), types.Typ[types.Bool]).(*Term)
 		i.ps.assume(i.tb.Eq(g, i.toTerm(args[1])))
 		return nil
 	})
@@ -345,10 +352,23 @@ func (i *interpreter) knownOnly(label string, nc *Term) bool {
 func (i *interpreter) rawPred(k knownFinding) *Term {
 	tb := i.tb
 	var args []*Term
+	smt := " " + strings.NewReplacer("(", " ( ", ")", " ) ").Replace(k.SMT) + " "
+	smt = strings.ReplaceAll(smt, " ", "  ")
 	for name, w := range k.Vars {
+		if w == 0 && strings.HasPrefix(name, "kf_") {
+			// ghost: latest version, or false when never defined on this path
+			rep := "false"
+			if v := i.ps.ghostVer[name]; v > 0 {
+				t := tb.Var(fmt.Sprintf("%s#%d", name, v), 0)
+				args = append(args, t)
+				rep = smtName(t.name)
+			}
+			smt = strings.ReplaceAll(smt, " "+name+" ", " "+rep+" ")
+			continue
+		}
 		args = append(args, tb.Var(name, w))
 	}
-	return tb.intern(&Term{op: opRaw, w: 0, name: k.SMT, args: args})
+	return tb.intern(&Term{op: opRaw, w: 0, name: strings.TrimSpace(smt), args: args})
 }
 
 // assumeChecked adds c to the path condition and makes sure the path stays
